@@ -125,10 +125,21 @@ func (r *chunkedReader) Read(p []byte) (n int, err error) {
 			if r.final {
 				// the zero-length chunk ends the stream: nothing may follow it
 				var one [1]byte
-				if m, _ := r.inner.Read(one[:]); m > 0 {
-					return n, errMalformedChunk("data after the final chunk")
+				for {
+					m, err := r.inner.Read(one[:])
+					if m > 0 {
+						return n, errMalformedChunk("data after the final chunk")
+					}
+					if err == io.EOF {
+						return n, io.EOF
+					}
+					if err != nil {
+						// The transport failed where the body should have
+						// ended (it is shorter than its Content-Length):
+						return n, err
+					}
+					// an empty read says nothing yet; ask again
 				}
-				return n, io.EOF
 			}
 			// read next chunk header
 			chunkSize, err := r.readChunkHeader()
